@@ -67,6 +67,24 @@ fn z_curve_partition<const D: usize>(
 
     // reorder points
     z_curve_partition_recurse(points, order, &obb, &mut permutation);
+    #[cfg(feature = "coupe_verif")]
+    if crate::verif::trace_enabled() {
+        crate::verif::record(
+            "zcurve_perm",
+            permutation.iter().map(|i| *i as u64).collect(),
+        );
+        // quadrant of each point at each level, with the very boxes used above
+        let mut codes = Vec::with_capacity(points.len() * order as usize);
+        for p in points {
+            let mut mbr = obb.clone();
+            for _ in 0..order {
+                let r = mbr.region(p).unwrap_or(0);
+                codes.push(r as u64);
+                mbr = mbr.sub_mbr(r);
+            }
+        }
+        crate::verif::record("zcurve_codes", codes);
+    }
 
     let points_per_partition = points.len() / part_count;
     let remainder = points.len() % part_count;
